@@ -488,10 +488,15 @@ def viable(g: RefGrammar, w: Union[str, bytes], start: str = "<start>") -> bool:
 
 
 class TreeChecker:
-    def __init__(self, g: RefGrammar, open_cap: Optional[int] = None, rep_bounds: Optional[Callable] = None):
+    def __init__(self, g: RefGrammar, open_cap: Optional[int] = None, rep_bounds: Optional[Callable] = None,
+                 preferred_word: Optional[str] = None):
+        """preferred_word (text grammars): additionally require every regex leaf to be exactly
+        the match re.match prefers at the leaf's offset in that word."""
         self.g = g
         self.open_cap = open_cap
         self.rep_bounds = rep_bounds
+        self.preferred_word = preferred_word
+        self._offs: dict = {}
 
     def ok(self, t: tuple, start: Optional[str] = None) -> Optional[str]:
         """None if t is a derivation (of `start` if given); else a reason string."""
@@ -499,18 +504,30 @@ class TreeChecker:
             return f"root is a leaf {t!r}"
         if start is not None and t[1] != start:
             return f"root symbol {t[1]} != requested start {start}"
-        return self._node(t)
+        return self._node(t, 0)
 
-    def _node(self, t: tuple) -> Optional[str]:
+    @staticmethod
+    def _width(t: tuple) -> int:
+        if t[0] == "T":
+            return len(t[1]) if isinstance(t[1], (str, bytes)) else 0
+        return sum(TreeChecker._width(k) for k in t[2])
+
+    def _node(self, t: tuple, off: int = 0) -> Optional[str]:
         name, kids = t[1], t[2]
+        offs = []
+        o = off
+        for k in kids:
+            offs.append(o)
+            o += self._width(k)
+        self._cur_offs = offs
         if name not in self.g.rules:
             return f"symbol {name} is not a grammar symbol"
         body = self.g.rules[name]
         if len(kids) not in self._ends(body, kids, 0):
             return f"children of {name} {[_sym(k) for k in kids]} do not spell an expansion of {to_fan(body)}"
-        for k in kids:
+        for k, o in zip(kids, offs):
             if k[0] == "N":
-                r = self._node(k)
+                r = self._node(k, o)
                 if r:
                     return r
         return None
@@ -531,7 +548,13 @@ class TreeChecker:
                 return {i + 1} if (type(v) is int and v == n.v) else set()
             if n.is_bytes:
                 return {i + 1} if isinstance(v, bytes) and _rx(n.pat.encode("latin-1")).fullmatch(v) else set()
-            return {i + 1} if isinstance(v, str) and _rx(n.pat).fullmatch(v) else set()
+            if not (isinstance(v, str) and _rx(n.pat).fullmatch(v)):
+                return set()
+            if self.preferred_word is not None:
+                m = _rx(n.pat).match(self.preferred_word, self._cur_offs[i])
+                if m is None or m.group(0) != v:
+                    return set()
+            return {i + 1}
         if isinstance(n, NT):
             return {i + 1} if i < len(kids) and kids[i][0] == "N" and kids[i][1] == n.name else set()
         if isinstance(n, Seq):
